@@ -1912,6 +1912,9 @@ def replace_pad_by_hw_pad(op: Operation, arch, nng) -> Operation:
         if op.read_offsets[0] is not None or op.read_shapes[0] is not None:
             # The operation reads a part of the padded tensor (a lowered MEAN), given in the coordinates of that tensor
             return op
+        if pad_op.ofm_shapes[0] != op.ifm_shapes[0]:
+            # The operation sees the padded tensor in another shape (a bypassed reshape in between)
+            return op
         if pad_op.ifm.dtype != pad_op.ofm.dtype or not check_quantized_tens_scaling_equal(pad_op.ofm, pad_op.ifm):
             return op
         top, left, bottom, right = get_pad_values_from_input(pad_op.inputs[1].values)
